@@ -9,7 +9,7 @@ from ..engines import seqgen as G
 ID = "C17"
 ENGINE = "seqsim"
 LEVEL = "exploration"
-RUNS = {"quick": 24000, "thorough": 400000}
+RUNS = {"quick": 80000, "thorough": 400000}
 CHUNK = 250
 RULE = ("seeded sequences of READ operations only (item access, get, len, iteration, membership, ==/!=/ordering, "
         "repr/str, (), keys/values/items, navigation into children and reads through them) and of buffered-context "
